@@ -59,7 +59,7 @@ theorem bmpBytes_length (w h : Nat) : (bmpBytes w h).length = 24 := by simp [bmp
 theorem inpBytes_length (l : Nat) : (inpBytes l).length = 84 := by simp [inpBytes, gle16_length, gle32_length, zeros]
 
 /-- the twelve capability sets of the client, with the sizes of the nine constant ones -/
-theorem clientCaps_ok (c : GClient) :
+theorem clientCapsWire_ok (c : GClient) :
     ∃ b3 b4 b5 b6 b8 b9 b10 b11 b12 : Bytes,
       b3.length = 84 ∧ b4.length = 36 ∧ b5.length = 4 ∧ b6.length = 4 ∧ b8.length = 4 ∧ b9.length = 48 ∧
       b10.length = 8 ∧ b11.length = 8 ∧ b12.length = 4 ∧
@@ -112,7 +112,7 @@ theorem confirmActiveBytes_eq (c : GClient) (hn : c.name.length < 60000) :
       b10.length = 8 ∧ b11.length = 8 ∧ b12.length = 4 ∧
       confirmActiveBytes c = .ok (le16 (c.name.length + 396) ++ le16 0x13 ++ le16 c.userId ++
         caBody c b3 b4 b5 b6 b8 b9 b10 b11 b12) := by
-  obtain ⟨b3, b4, b5, b6, b8, b9, b10, b11, b12, l3, l4, l5, l6, l8, l9, l10, l11, l12, hcaps⟩ := clientCaps_ok c
+  obtain ⟨b3, b4, b5, b6, b8, b9, b10, b11, b12, l3, l4, l5, l6, l8, l9, l10, l11, l12, hcaps⟩ := clientCapsWire_ok c
   refine ⟨b3, b4, b5, b6, b8, b9, b10, b11, b12, l3, l4, l5, l6, l8, l9, l10, l11, l12, ?_⟩
   have lg := genBytes_length
   have lb := bmpBytes_length c.width c.height
